@@ -37,6 +37,7 @@ pub fn c08_step(cx: &StepCtx<'_, impl Sized>, info: &InputInfo, conn_pre: Conn, 
     // (1) replay MemberUp / MemberDown / Rename on the previous active set
     let mut set: Vec<Id> = pre.active.clone();
     let mut conn = conn_pre;
+    let mut active_on_empty = false;
     let is_reset_call = matches!(cx.ev, Ev::ChangeId(_)) && cx.out.res.is_ok() || matches!(cx.ev, Ev::Reuse) && cx.out.res.is_ok();
     if is_reset_call {
         conn = Conn::Idle;
@@ -64,8 +65,10 @@ pub fn c08_step(cx: &StepCtx<'_, impl Sized>, info: &InputInfo, conn_pre: Conn, 
                 if conn != Conn::Idle {
                     return Err(viol("c08:active-not-from-idle", format!("Active notified while the instance was {:?}", conn)));
                 }
+                // the relative order of MemberUp and Active within one call
+                // is left open by the property: judged at the end of the call
                 if set.is_empty() {
-                    return Err(viol("c08:active-without-members", "Active notified with no active member".into()));
+                    active_on_empty = true;
                 }
                 conn = Conn::Active;
             }
@@ -101,6 +104,9 @@ pub fn c08_step(cx: &StepCtx<'_, impl Sized>, info: &InputInfo, conn_pre: Conn, 
     }
     if conn == Conn::Active && post.active.is_empty() {
         return Err(viol("c08:active-but-empty", "instance stays active with no active member (Idle missing)".into()));
+    }
+    if active_on_empty && set.is_empty() {
+        return Err(viol("c08:active-without-members", "Active notified with no active member".into()));
     }
     // (2) Defunct / Rejoin iff the input contains a self-death
     let mut cur = (pre.id, own_inc_pre);
